@@ -424,6 +424,8 @@ class T:
             raise Unsupported("truth value of a tensor with a time axis")
         if not getattr(self, "scalar_like", False):
             raise Unsupported("truth value of a multi-element tensor")
+        if getattr(self, "batch_mixed", False) and not VALIDATION_TEST[0]:
+            note_batch_event("control", "control flow depends on a reduction over all elements (other batch samples)")
         return cur().branch(as_bool(self.f))
 
     # -- shape protocol
@@ -578,6 +580,12 @@ class T:
         r.pure_time = self.pure_time and (not isinstance(other, T) or other.pure_time)
         if getattr(self, "scalar_like", False) and (not isinstance(other, T) or getattr(other, "scalar_like", False)):
             r.scalar_like = True
+        ma, mb = getattr(self, "batch_mixed", False), getattr(other, "batch_mixed", False)
+        if ma or mb:
+            r.batch_mixed = True
+            if not getattr(r, "scalar_like", False):
+                # a whole-tensor reduction (over the batch as well) flows into per-element data
+                note_batch_event("data", "a reduction over all elements flows into a per-element tensor")
         return r
 
     # arithmetic
@@ -1166,7 +1174,24 @@ class T:
         self.f = r.f
         return self
 
+    def any(self, *a, **k):
+        if a or k:
+            raise Unsupported("any(dim)")
+        return _full_bool_reduce(self, "any")
+
+    def all(self, *a, **k):
+        if a or k:
+            raise Unsupported("all(dim)")
+        return _full_bool_reduce(self, "all")
+
     def sum(self, *a, **k):
+        if not a and not k and self.tlen is None:
+            ex = cur()
+            v = z3.Real(ex.fresh_name("sum_all")) if self.dtype == "float" else z3.Int(ex.fresh_name("sum_all"))
+            r = T(v, self.dtype if self.dtype != "bool" else "int", None, None, Shape(()))
+            r.scalar_like = True
+            r.batch_mixed = True
+            return r
         raise Unsupported("reduction sum")
 
     def mean(self, dim=None, **k):
@@ -1214,6 +1239,13 @@ class T:
 
 
 LAYOUT_FREE = [False]
+VALIDATION_TEST = [0]  # > 0 while the interpreter evaluates the test of an `if ...: raise` / assert statement
+
+
+def note_batch_event(kind, text):
+    ex = Explorer.current
+    if ex is not None:
+        ex.batch_events.append((kind, text))
 
 
 # ----------------------------------------------------------------------- helpers
@@ -1301,12 +1333,14 @@ def _full_reduce(x, what):
         r = T(x.f, x.dtype, None, None, Shape(()))
         r.scalar_like = True
         r.reduced_from = (what, x)
+        r.batch_mixed = True
         return r
     if _is_one(x.tlen):
         # a time axis of length one adds nothing to the reduction over the (arbitrary-element) value
         r = T(x.f(z3.IntVal(0)), x.dtype, None, None, Shape(()))
         r.scalar_like = True
         r.reduced_from = (what, x)
+        r.batch_mixed = True
         return r
     # reduction over elements and time: an uninterpreted bound constrained at the time points we can name
     ex = cur()
@@ -1367,6 +1401,21 @@ def _full_reduce(x, what):
     r = T(v, x.dtype, None, None, Shape(()))
     r.scalar_like = True
     r.reduced_from = (what, x)
+    r.batch_mixed = True
+    return r
+
+
+def _full_bool_reduce(x, what):
+    """x.any() / x.all() over ALL elements: a fresh boolean tied to the arbitrary element (element true => any true;
+    all true => element true); the result depends on every batch sample (batch_mixed)"""
+    ex = cur()
+    b = z3.Bool(ex.fresh_name(what + "_all_elements"))
+    xb = x.bool() if x.dtype != "bool" else x
+    if xb.tlen is None:
+        ex.assume(z3.Implies(xb.f, b) if what == "any" else z3.Implies(b, xb.f))
+    r = T(b, "bool", None, None, Shape(()))
+    r.scalar_like = True
+    r.batch_mixed = True
     return r
 
 
